@@ -138,11 +138,12 @@ def confirm(a: argparse.Namespace) -> int:
     if a.tests:
         t = time.time()
         par = f'-n {a.jobs} ' if a.jobs > 1 else ''
-        cmd = (f'{PY} -m pytest -q -p no:cacheprovider -x --timeout=1200 '
-               f'{par}{a.tests}')
+        sel = f'-k "{a.k}" ' if a.k else ''
+        cmd = (f'{PY} -m pytest -q -p no:cacheprovider -x --timeout=600 '
+               f'{par}{sel}{a.tests}')
         r = sh(isolated(cmd))
         last = (r.stdout.strip().splitlines() or ['?'])[-1]
-        ran.append(f'pytest {a.tests} with patch: exit {r.returncode} '
+        ran.append(f'pytest {sel}{a.tests} with patch: exit {r.returncode} '
                    f'({last}) {time.time() - t:.0f}s')
         print('   ', ran[-1])
         tests_ok = r.returncode == 0
@@ -229,6 +230,9 @@ def main() -> int:
     c.add_argument('--needs', required=True)
     c.add_argument('--summary')
     c.add_argument('--tests')
+    c.add_argument('--k', help='pytest -k expression (e.g. "not detached": '
+                   'the detached-server fixture times out on a loaded '
+                   'machine whatever the source)')
     c.add_argument('--jobs', type=int, default=1,
                    help='xdist workers; only for tests that start no '
                         'Compiler (they would share port 7472)')
